@@ -293,7 +293,7 @@ func (c pcase) monitorParked(ms *monitors, out parkedOut) {
 	}
 	var E func(x, y proto.Message) bool
 	if c.Spec != nil {
-		E = c.Spec.build()
+		E = guarded(c.Spec.build())
 	}
 	for wi, w := range out.windows {
 		touched := map[string]bool{}
